@@ -311,7 +311,6 @@ def run_case(script):
       if state['connected'] > 1:
         ev.append({'e': 'Reopen', 't': ms()})
       ev.append({'e': 'Opened', 'ok': 1, 't': ms()})
-      state['owner_closed'] = False
     elif k == 'recv_hang' and kind == 'mux':
       ev.append({'e': 'Silence', 'on': 1, 't': ms()})
     elif k == 'srv_frame':
